@@ -8,6 +8,7 @@ CONSTANTS
   ChunkCap = 2
   MaxOps = 40
   HistViews = FALSE
+  OrderedBegin = FALSE
 VIEW View0
 INVARIANTS TypeOK RingConsistent InOrder NoDirty PrefixRule CompleteKF AtomicKF CleanupSafe SeekConsistentKF SeekKFExact EmitState
 PROPERTIES Stable
